@@ -288,6 +288,44 @@ def run_job(spec):
                 res["witness_mismatch"].append(dict(inputs=cx, symbolic=jsonable(sym_c), real=jsonable(real_c)))
                 continue
             res["witnesses_ok"] += 1
+            # ---- 1b. boundary witnesses (opt-in per harness): members of the path with every integer input at its upper / lower bound,
+            # where the path allows it.  Effects outside the model (float rounding, wrap-around in compiled code) tend to sit there;
+            # a disagreement is judged by the oracle on the REAL outcome exactly like a witness mismatch.
+            stop = False
+            if getattr(H, "boundary_witnesses", False):
+                ints = [nm for nm in V.names if V.kinds[nm] == "int" and V.vars[nm].hi is not None and V.vars[nm].lo is not None]
+                for side in ("hi", "lo"):
+                    s.push()
+                    s.add(*[V.vars[nm].t == getattr(V.vars[nm], side) for nm in ints])
+                    ok_b = s.check() == z3.sat
+                    mb = s.model() if ok_b else None
+                    s.pop()
+                    if not ok_b:
+                        continue
+                    cxb = V.concrete(mb)
+                    try:
+                        sym_b = eval_out(out, mb)
+                    except Exception:
+                        continue
+                    real_b = plain_call(spec["module"], spec["harness"], skel, cxb)
+                    res["boundary_witnesses"] = res.get("boundary_witnesses", 0) + 1
+                    if not same(sym_b, real_b):
+                        why = None
+                        try:
+                            why = H.oracle(skel, cxb, real_b)
+                        except Exception:
+                            why = None
+                        if why is not None and not any(region_eval(k["region"], cxb, skel) is True for k in known_all):
+                            res["violations"].append(dict(obligation="boundary-witness", inputs=cxb, output=jsonable(real_b),
+                                                          why=("[real run of a boundary member of the path; the symbolic model diverges here] " + why)[:1000]))
+                        else:
+                            res["witness_mismatch"].append(dict(inputs=cxb, symbolic=jsonable(sym_b), real=jsonable(real_b)))
+                        stop = True
+                        break
+            if stop:
+                if res["violations"]:
+                    break
+                continue
             # ---- 2. proof
             try:
                 post = H.post(skel, x, out)
